@@ -105,8 +105,9 @@ def raster_obs(spec):
     defaults = {'png': ('#000', '#fff'), 'ppm': ('#000', '#fff'), 'pam': ('#000', '#fff'), 'xpm': ('#000', '#fff')}
     dd, dl = defaults.get(kind, ('#000', '#fff'))
     try:
-        o['dark'] = project.colour_arg(kw.get('dark', dd))
-        o['light'] = project.colour_arg(kw.get('light', dl))
+        if kind != 'txt':          # the dark / light arguments of the text writer are cell strings, not colours
+            o['dark'] = project.colour_arg(kw.get('dark', dd))
+            o['light'] = project.colour_arg(kw.get('light', dl))
         if kind == 'compact':
             out = io.StringIO()
             qr.terminal(out=out, border=kw.get('border'), compact=True)
@@ -193,6 +194,10 @@ def gen_raster(tier, seed_):
                     bkw = {} if b is None else {'border': b}
                     add('txt', v, dict(bkw))
                     add('txt', v, dict(bkw, dark='#', light='.'))
+                    if b is None:
+                        # the cell strings are free: the digits swapped, a digit only on one side, numbers, cells wider than one character
+                        for dk, lt in (('0', '1'), ('A', '1'), ('0', 'B'), ('1', ' '), (1, 0), (0, 1), (7, '1'), ('##', '..'), ('10', '01'), ('1', '0')):
+                            add('txt', v, dict(bkw, dark=dk, light=lt))
                     add('ans', v, dict(bkw))
                     add('compact', v, dict(bkw))
     # every PNG colour set on one symbol; non-integral scales (truncated); every residue of the row length mod 8
@@ -273,7 +278,7 @@ def judge_docs(rep, obs, refusal_expected=None):
         if o['outcome']['status'] != 'ok':
             must_refuse = refusal_expected(spec) if refusal_expected else False
             is_ve = 'ValueError' in o['outcome'].get('mro', [])
-            if must_refuse and is_ve:
+            if (must_refuse or spec.get('may_refuse')) and is_ve:
                 rep.keys.add(('refused', spec['kind'], json.dumps(spec['kw'], sort_keys=True, default=str)))
                 continue
             rep.violation({'kind': 'render', 'module': 'props_render', 'spec': spec, 'failing_clauses': ['unexpected_exception'], 'observed': o['outcome']},
@@ -442,6 +447,15 @@ def gen_vector(tier, seed_):
     for opt in SVG_OPTS:
         for s in (1, 2.5):
             add('svg', 1, dict(opt, scale=s))
+    # hexadecimal colours written without '#' (accepted by the implementation, not documented: honoured as that colour, or refused)
+    for c in ('c0ffee', 'FA8072', 'abc', 'eee', '123', '00f', 'DEAD', 'c0ffee80', 'fade', 'bad', 'BEEF00'):
+        for kind in ('svg', 'eps', 'pdf'):
+            if len(c) in (4, 8) and kind != 'svg':
+                continue
+            add(kind, 'M1', {'dark': c})
+            specs[-1]['may_refuse'] = True
+            add(kind, 'M1', {'light': c, 'dark': 'navy'})
+            specs[-1]['may_refuse'] = True
     for s in scales:
         for kind in ('svg', 'eps', 'pdf', 'tex'):
             add(kind, 'M1', {'scale': s})
@@ -610,6 +624,11 @@ def gen_typed(tier, seed_):
             add('typed', kind, v, {'quiet_zone': 'black', 'timing_light': 'black', 'timing_dark': 'white'})
             # the same colour given in different notations for different types
             add('typed', kind, v, {'dark': '#000', 'finder_dark': 'black', 'timing_dark': 'darkred', 'data_dark': (0, 0, 0), 'border': 1})
+            if kind == 'png':
+                # tuples that compare equal but are different colours: alpha 1 (integer, 1/255) and alpha 1.0 (float, opaque), 255 and 1.0
+                add('typed', kind, v, {'dark': (0, 0, 128, 1.0), 'finder_dark': (0, 0, 128, 1)})
+                add('typed', kind, v, {'dark': (0, 0, 128, 1), 'finder_dark': (0, 0, 128, 1.0), 'light': None})
+                add('typed', kind, v, {'data_dark': (128, 0, 0, 255), 'finder_dark': (128, 0, 0, 1.0), 'timing_dark': (128, 0, 0, 1), 'format_dark': (128, 0, 0, 0)})
         # every single option on symbols that do / do not contain modules of that type (M1: no alignment, no version, no dark module;
         # version 1: no alignment pattern; border 0: no quiet zone), with and without scaling
         for opt in TYPE_OPTS:
